@@ -30,6 +30,7 @@ struct Slot {
     seen: usize,
     name: String,
     arg: u32,
+    arg2: u32,
     sub: Option<usize>,
     wguard: Option<ObservableWriteGuard<'static, Val, AsyncLock>>,
     rguard: Option<ObservableReadGuard<'static, Val, AsyncLock>>,
@@ -65,6 +66,7 @@ impl World {
                 }
                 let name = slot.name.clone();
                 let arg = slot.arg;
+                let arg2 = slot.arg2;
                 let k = slot.sub.unwrap_or(0) as u32;
                 let (text, expect): (String, Option<String>) = match res {
                     Res::W(g) => {
@@ -82,6 +84,11 @@ impl World {
                                 self.spec.step("set", &[arg]).map(|x| x.0)
                             }
                             "get" => self.spec.step("get", &[]).map(|x| x.0),
+                            "set_if_not_eq" | "set_if_hash_not_eq" | "update" => {
+                                self.spec.step(name.as_str(), &[arg]).map(|x| x.0)
+                            }
+                            "take" => self.spec.step("take", &[]).map(|x| x.0),
+                            "update_if" => self.spec.step("update_if", &[arg, arg2]).map(|x| x.0),
                             "next_now" => self.spec.step("next_now", &[k]).map(|x| x.0),
                             _ => self.spec.step("poll", &[k]).map(|x| match x.0.strip_prefix("R:") {
                                 Some(v) => format!("Some({v})"),
@@ -139,6 +146,7 @@ pub fn run_line(line: &str, out: &mut String) {
             seen: 0,
             name: name.to_string(),
             arg: a.first().copied().unwrap_or(0),
+            arg2: a.get(1).copied().unwrap_or(0),
             sub: None,
             wguard: None,
             rguard: None,
@@ -173,6 +181,34 @@ pub fn run_line(line: &str, out: &mut String) {
                 slot.fut = Some(Box::pin(async move { (None, Res::Text(format!("={}", show(ob.set(v).await)))) }));
             }
             "get" => slot.fut = Some(Box::pin(async move { (None, Res::Text(format!("={}", show(ob.get().await)))) })),
+            "set_if_not_eq" => {
+                let v = val(a[0]);
+                slot.fut = Some(Box::pin(async move { (None, Res::Text(opt(ob.set_if_not_eq(v).await))) }));
+            }
+            "set_if_hash_not_eq" => {
+                let v = val(a[0]);
+                slot.fut = Some(Box::pin(async move { (None, Res::Text(opt(ob.set_if_hash_not_eq(v).await))) }));
+            }
+            "take" => slot.fut = Some(Box::pin(async move { (None, Res::Text(format!("={}", show(ob.take().await)))) })),
+            "update" => {
+                let v = val(a[0]);
+                slot.fut = Some(Box::pin(async move {
+                    ob.update(|x| *x = v).await;
+                    (None, Res::Text("()".into()))
+                }));
+            }
+            "update_if" => {
+                let v = val(a[0]);
+                let b = a[1] == 1;
+                slot.fut = Some(Box::pin(async move {
+                    ob.update_if(|x| {
+                        *x = v;
+                        b
+                    })
+                    .await;
+                    (None, Res::Text("()".into()))
+                }));
+            }
             "write" => slot.fut = Some(Box::pin(async move { (None, Res::W(ob.write().await)) })),
             "read" => slot.fut = Some(Box::pin(async move { (None, Res::R(ob.read().await)) })),
             "next_now" | "next" | "next_ref" | "stream" => {
